@@ -251,6 +251,9 @@ class Prover:
     # -------------------------------------------------------------------------------- solving
     def _solve(self, o, negated_goal, try_free, pref=None):
         c = self.c
+        if _ctx.soft_deadline_passed():
+            o.status, o.stage = "unknown", "not attempted: the item's soft deadline had passed"
+            return
         bc = c.base_constraints()
         axs_free = list(_ax.instances([negated_goal], c))
         axs = list(_ax.instances(bc + [negated_goal], c))
